@@ -11,12 +11,12 @@ CONFIG = {
         TRANSLATOR + " (TokensGen.v, UnicodeGen.v as for C11; unicode.IsSpace also drives strings.Fields / TrimSpace in the re-flow)",
         CORR, HARNESS,
         "modelled, not verified: strings.NewReplacer / ReplaceAll / Fields / TrimSpace / TrimRight / Repeat / Join, len() of strings (UTF-8 length), fmt.Sprintf with %s, []rune conversion",
-        "add-only hooks: internal/bcl/internal/parser/verif_export.go, internal/bcl/verifbcl, lib/verifshim/bcl (build tag verif)",
+        "add-only hooks: internal/bcl/internal/parser/verif_export.go, internal/bcl/verifbcl, lib/verifshim/bcl, cmd/j5/internal/cli/verif_export.go + cmd/j5/verifcli (runs runJ5sFmt: j5 j5s fmt --file/--dir --write), lib/verifshim/bcl FmtPublic (internal/bcl.Fmt, the wrapper the command calls) (build tag verif)",
     ],
     "assumptions": [
         "model/BclFmt.v is the hand-written model of fmt.go and description.go as they are after the fix: commits listed in KNOWN_FINDINGS.txt (tokenSource with the lexer's own escapes, Fields-based re-flow, bare '|' for an empty description), on top of the C11 models; tied to the code by byte-exact comparison of Fmt output (or its rejection) on every generated file, and of tokenSource / reformatDescription on random literals",
         "the full statement C09_full_statement is proved (C09_full) for the model, at rune level: input and output are rune lists ([]rune of the Go strings); the byte level adds only that decoding the UTF-8 encoding of decoded runes gives the runes back (modelled, not verified)",
-        "'same document' is over the walker's flat fragment list (comments included; nesting as the sequence of opening headers and closing braces, on which alone fragmentsToFile's diagnostics depend — to_file_ok_iff); values are compared by token type and literal, so x = a.b and x = \"a.b\" are the same value exactly as popValue makes them",
+        "'same document' is stated twice: over the walker's flat fragment list (comments included; nesting as the sequence of opening headers and closing braces, on which alone fragmentsToFile's diagnostics depend — to_file_ok_iff) in C09_full, and over the nested tree ParseFile returns (comments dropped by fragmentsToFile) in C09_same_tree; values are compared by token type and literal, so x = a.b and x = \"a.b\" are the same value exactly as popValue makes them",
     ],
     "mult_search": 4,
     "refuted": [],
@@ -24,7 +24,7 @@ CONFIG = {
 }
 
 MANIFEST = {
-    "text": "C09_full_statement is proved (C09_full) over a Gallina model of the formatter (tokenSource, fmter, reformatDescription, Fmt) on top of the proved lexer/walker models, for all rune lists: for every file the parser accepts, Fmt succeeds, the parser accepts the output, the output's fragments (read again by lexer and walker) have the same documents as the input's — block types, tags with marks, qualifiers, nesting (sequence of opening headers / closing braces), assignment keys, operators and literal values (type and literal of every token), comments, descriptions with the same words and paragraph breaks — and formatting the output again returns it unchanged (C09_idempotent holds for every input Fmt accepts). Built from: every token the lexer emits is read back from tokenSource's text when followed by text that cannot extend it; every line the formatter writes lexes to the fragment's canonical tokens; the whole output lexes to the canonical stream (description blocks incl. the bare | line, blank lines, indentation); adjacent description blocks are separated by an empty source line; the walker rebuilds the fragments from the canonical stream; the text of a line is a function of the document; the re-flow keeps words and paragraph breaks and is a fixed point; exact line numbers of the tokens and fragments of the output reproduce the blank-line decisions. Fmt never panics or exhausts fuel. Fmt's output is compared byte for byte with the model's on every generated file, and the direct oracle re-parses, compares documents and formats twice.",
-    "note": "Full statement proved for the model (C09_full), rune level. 'Same document' is over the walker's fragment list (comments included, nesting as open/close sequence); values compare token type and literal, so x = a.b and x = \"a.b\" are the same value as in the parser. The proofs are for the code after fixes ab323ff (tokenSource used %q and did not re-double '/'), 4c24869 (re-flow not a fixed point), 266986b (empty description printed as an empty line), e44da54 (spurious blank line after a brace-less header with a trailing comment) and e710ab8 (nesting bound). Trusted: Coq kernel, translator, harness, the hand-written model tied by byte-exact correspondence; Go string functions modelled.",
+    "text": "C09_full_statement is proved (C09_full) over a Gallina model of the formatter (tokenSource, fmter, reformatDescription, Fmt) on top of the proved lexer/walker models, for all rune lists: for every file the parser accepts, Fmt succeeds, the parser accepts the output, the output's fragments (read again by lexer and walker) have the same documents as the input's — block types, tags with marks, qualifiers, nesting (sequence of opening headers / closing braces), assignment keys, operators and literal values (type and literal of every token), comments, descriptions with the same words and paragraph breaks — and formatting the output again returns it unchanged (C09_idempotent holds for every input Fmt accepts). Built from: every token the lexer emits is read back from tokenSource's text when followed by text that cannot extend it; every line the formatter writes lexes to the fragment's canonical tokens; the whole output lexes to the canonical stream (description blocks incl. the bare | line, blank lines, indentation); adjacent description blocks are separated by an empty source line; the walker rebuilds the fragments from the canonical stream; the text of a line is a function of the document; the re-flow keeps words and paragraph breaks and is a fixed point; exact line numbers of the tokens and fragments of the output reproduce the blank-line decisions. Fmt never panics or exhausts fuel. Fmt's output is compared byte for byte with the model's on every generated file, and the direct oracle re-parses, compares documents and formats twice. The write path of `j5 j5s fmt --write` (file system, outside the model) is checked by the direct oracle only: on temporary files that are longer, shorter and equal to the formatted text, in --file and --dir mode, the file left on disk must be exactly Fmt's output and a second run must leave it unchanged.",
+    "note": "Full statement proved for the model (C09_full), rune level. 'Same document' is over the walker's fragment list (comments included, nesting as open/close sequence); values compare token type and literal, so x = a.b and x = \"a.b\" are the same value as in the parser. The proofs are for the code after fixes ab323ff (tokenSource used %q and did not re-double '/'), 4c24869 (re-flow not a fixed point), 266986b (empty description printed as an empty line), e44da54 (spurious blank line after a brace-less header with a trailing comment), e710ab8 (nesting bound) and 4713d1d (fmt --dir --write crashed). Trusted: Coq kernel, translator, harness, the hand-written model tied by byte-exact correspondence; Go string functions modelled.",
     "technique": "Rocq/Coq proof (inverse-pair lemmas tokenSource/lexer by induction on the literal; line- and file-level relex by explicit construction of the NextToken run; walker run constructed from the canonical stream; lexer/walker position invariants for the description gap; word-level machines for the re-flow) + byte-exact in-Coq differential correspondence of Fmt, tokenSource and reformatDescription + direct oracle (re-parse, position-free document comparison, format twice)",
 }
